@@ -93,7 +93,20 @@ def extra_families():
                                                                       ('set_attr_scalar', 's', 'str'), ('set_attr_scalar', 'i', 7)]})],
                  'root': ('dict', 'str', ('cls', 'K'))},
                 lambda b: [{'k': b.classes['K'](1)}, {'a': b.classes['K'](2), 'b': b.classes['K'](3)}]))
-    for val in (None, True, 1.5, 3):
+    fam.append(('sweeten-writes-floats',
+                {'classes': B + [K([('x', 'int')], hooks={'sweeten': [('set_attr_scalar', 'a', float('inf')), ('set_attr_scalar', 'b', float('-inf')),
+                                                                      ('set_attr_scalar', 'c', float('nan')), ('set_attr_scalar', 'd', 1e-6),
+                                                                      ('set_attr_scalar', 'e', 1e22), ('set_attr_scalar', 'f', 1.0),
+                                                                      ('set_attr_scalar', 'g', -0.0), ('set_attr_scalar', 'h', 123456789.125)]})],
+                 'root': ('list', ('cls', 'K'))},
+                lambda b: [[b.classes['K'](1)]]))
+    fam.append(('sweeten-writes-finite-floats',
+                {'classes': B + [K([('x', 'int')], hooks={'sweeten': [('set_attr_scalar', 'd', 1e-6), ('set_attr_scalar', 'e', 1e22),
+                                                                      ('set_attr_scalar', 'f', 1.0), ('set_attr_scalar', 'g', -0.0),
+                                                                      ('set_attr_scalar', 'h', 123456789.125), ('set_attr_scalar', 'i', 5e-324)]})],
+                 'root': ('list', ('cls', 'K'))},
+                lambda b: [[b.classes['K'](1)]]))
+    for val in (None, True, 1.5, 3, float('inf'), float('nan'), 1e-7, 1e16):
         fam.append(('sweeten-set-value:%r' % (val,),
                     {'classes': [{'name': 'E3', 'kind': 'enum', 'members': ['aa', 'bb'], 'hooks': {'sweeten': [('set_value', val)]}}],
                      'root': ('list', ('cls', 'E3'))},
